@@ -24,6 +24,8 @@ TRANSPARENT_CALLS = {
     "core::ops::deref::DerefMut::deref_mut": "deref",
     "core::convert::AsRef::as_ref": "deref",
     "core::borrow::Borrow::borrow": "deref",
+    "alloc::vec::Vec::<T, A>::as_slice": "deref",
+    "alloc::vec::Vec::<T, A>::as_mut_slice": "deref",
 }
 
 IDENTITY_FNS = {"alloc::string::String::as_str", "alloc::string::String::as_ref", "core::ops::deref::Deref::deref", "alloc::string::String::as_mut_str"}
